@@ -23,6 +23,48 @@ def _negated_bad(t) -> bool | None:
     return neg
 
 
+def _gate_is_the_trajectorys(prog, K, p, mask) -> tuple[bool, str]:
+    """The dark-atom branch is taken iff the *same object that supplies bad_atoms* reports state_prep_error > 0.
+    (Pulser draws bad_atoms per trajectory from the noise model that was actually used — the device's when
+    prefer_device_noise_model — so a gate read from config.noise_model can be off while atoms are marked bad.)"""
+    srcs = [strip_typed(t[1]) for t in walk(mask) if strip_typed(t)[0] == "attr" and strip_typed(t)[2] == "bad_atoms"]
+    if not srcs:
+        return False, "the filter is not built from <data>.bad_atoms"
+    data = srcs[0]
+    same = {data}
+    if data[0] == "attr" and data[1] == SELF:
+        for v, ev in field_defs(prog, K).get(data[2], []):
+            if ev.func.name == "__init__":
+                same.add(strip_typed(v))
+    fd = None
+
+    def resolve(c):
+        nonlocal fd
+        c = strip_typed(c)
+        if c[0] == "attr" and c[1] == SELF:          # a flag computed in the constructor
+            fd = fd or field_defs(prog, K)
+            defs = [strip_typed(v) for v, ev in fd.get(c[2], []) if ev.func.name == "__init__"]
+            if len(defs) == 1:
+                return defs[0]
+        return c
+
+    gates = []
+    for c, t in p.cond_log:
+        c0 = resolve(c)
+        if "state_prep_error" in show(c0) or "state_prep_error" in show(c):
+            gates.append((c0, t))
+    if not gates:
+        return False, "the filter is not conditioned on state_prep_error > 0"
+    for c0, t in gates:
+        ok = c0[0] == "cmp" and c0[1] == ">" and is_const(c0[3], 0) and t is True and \
+            strip_typed(c0[2])[0] == "attr" and strip_typed(c0[2])[2] == "state_prep_error" and strip_typed(strip_typed(c0[2])[1]) in same
+        if ok:
+            return True, ""
+    return False, (f"the dark-atom branch is gated by {show(gates[0][0])[:70]}, not by the state_prep_error of the object that "
+                   f"supplies bad_atoms ({show(data)[:40]}): with prefer_device_noise_model, or a SequenceData run with "
+                   f"another config, atoms marked bad stay in the simulation as ordinary atoms")
+
+
 def mps_completeness(ctx) -> None:
     prog = ctx.prog
     K = prog.cls(MPS)
@@ -38,10 +80,10 @@ def mps_completeness(ctx) -> None:
         ctx.ob("DARK-mps", "filter polarity", st.loc(), pol is True,
                "the filter keeps the well-prepared atoms: logical_not(bad_atoms)" if pol is True else
                f"well_prepared_qubits_filter = {show(st.value)[:80]} does not select the atoms that are NOT bad")
-        cond_ok = any("state_prep_error" in show(c) and t for c, t in p.cond_log)
+        cond_ok, gate_why = _gate_is_the_trajectorys(prog, K, p, st.value)
         ctx.ob("DARK-mps", "filter condition", f.loc(), cond_ok,
-               "the filter is built when the noise model has a state-preparation error" if cond_ok else
-               "the filter is not conditioned on state_prep_error > 0")
+               "the filter is built when the sequence data that carries bad_atoms has state_prep_error > 0" if cond_ok else
+               f"init_dark_qubits: {gate_why}")
         heap_filter = st.value
         for name in ("omega", "delta", "phi"):
             ev = [e for e in p.events if e.kind == "setattr" and e.name == name and e.target[0] == SELF]
@@ -133,6 +175,10 @@ def sv_completeness(ctx) -> None:
                 idx = strip_typed(e.target[1])
                 zero[b[2]] = idx[0] == "tuple" and len(idx[1]) == 2 and idx[1][0][0] == "slice" and canon(idx[1][1]) == canon(mask)
     ok = pol is False and zero.get("omega") is True
+    gate_ok, gate_why = _gate_is_the_trajectorys(prog, K, p, st.value)
+    ctx.ob("DARK-sv", "gate", f.loc(), gate_ok,
+           "the dark-atom branch is taken when the sequence data that carries bad_atoms has state_prep_error > 0" if gate_ok else
+           f"SVBackendImpl.init_dark_qubits: {gate_why}")
     ctx.ob("DARK-sv", "drive zeroed on bad atoms", st.loc(), ok,
            "omega of every badly prepared atom is set to 0 (mask = bad_atoms)" if ok else
            f"mask = {show(mask)[:60]} (bad atoms selected: {pol is False}); omega zeroed with it: {zero.get('omega')}")
